@@ -317,7 +317,7 @@ def run_miri(seed):
         else:
             log(f"  miri script {script}: {n_seeds} schedules ok")
     # the history layer itself under the interpreter (UB detection on every explored history)
-    hist_runs = int(os.environ.get("VERIF_MIRI_HIST_RUNS", "400"))
+    hist_runs = int(os.environ.get("VERIF_MIRI_HIST_RUNS", "150"))
     hist = {}
     env2 = dict(ENV, MIRIFLAGS="-Zmiri-disable-isolation")
     for config in (0, 1):
@@ -374,7 +374,8 @@ def determinism(n_seeds):
     the batch fingerprint and all counters must be identical."""
     if not build(["rel", "dbg"]):
         return 2
-    layers = [("c15-hist", 4000), ("c13-cursor", 3000), ("c13-fold", 400)]
+    # more runs than one chunk holds, so that several child processes and workers are involved
+    layers = [("c15-hist", 50000), ("c13-cursor", 50000), ("c13-fold", 3500)]
     bad = 0
     total = 0
     for seed in range(1, n_seeds + 1):
